@@ -52,7 +52,7 @@ def families(tier):
     ok("ring2_tail_in", 3, 4)
     ok("ring2_pull_delay_after", 3, 4)
     ok("ring2_dpull3", 4, 5)
-    ok("ring_chord_shared_dfix", 5, 6)
+    ok("ring_chord_shared_dfix", 5, 5)
     ok("ring2_dpull2_pulls_at_connect", 0, 4)
     bad("ring2", 4, 6)
     bad("ring2", 4, 6, strict=True)
